@@ -136,6 +136,8 @@ impl<'r> P<'r> {
     fn wrap(&mut self, e: &E, need: bool) -> String { let s = self.pr(e); let extra = !self.full && self.r.p(8); if need || self.full || extra { format!("({s})") } else { s } }
     fn starts_unary(e: &E) -> bool { match e { E::Neg(_) | E::Not(_) => true, E::Lit(V::Int(i)) => *i < 0, E::Lit(V::Float(f)) => f.is_sign_negative(), E::Bin(_, a, _) | E::Tern(_, a, _) | E::Filt(a, ..) | E::Test(a, ..) | E::Attr(a, ..) | E::Item(a, ..) | E::Slice(a, ..) => Self::starts_unary(a), _ => false } }
     fn pr(&mut self, e: &E) -> String { let w = self.ws(); match e {
+        // the alternative spellings of the constants (True/False, None/null) in the free spelling
+        E::Lit(V::Bool(b)) if !self.full && self.r.p(25) => (if *b { "True" } else { "False" }).to_string(), E::Lit(V::None) if !self.full && self.r.p(40) => ["None", "null"][self.r.b(2) as usize].to_string(),
         E::Lit(v) => lit(v), E::Var(n) => n.clone(), E::Probe(id, v) => format!("probe(id={id},{w}v={})", lit(v)),
         E::Arr(es) => format!("[{}]", es.iter().map(|x| self.pr(x)).collect::<Vec<_>>().join(", ")), E::Map(es) => format!("{{{} }}", es.iter().map(|(k, x)| format!("\"{k}\": {}", self.pr(x))).collect::<Vec<_>>().join(", ")),
         E::Attr(b, n, o) => format!("{}{}{n}", self.wrap_post(b), if *o { "?." } else { "." }), E::Item(b, i, o) => format!("{}{}{}]", self.wrap_post(b), if *o { "?[" } else { "[" }, self.pr(i)),
